@@ -284,9 +284,17 @@ def gen_case(r: random.Random) -> Dict[str, Any]:
     nl = len(target)
     labels = [AutowareLabel(t) for t in target]
     wide = r.choice([20.0, 60.0])
-    kind = r.choice(["xy", "ring", "none"])
+    kind = r.choice(["xy", "ring", "none", "both"])
     p: Dict[str, Any] = {"target_labels": labels}
-    if kind == "xy":
+    if kind == "both":
+        # both families of bounds in one direct call (a corridor inside a ring): every configured bound applies
+        p["max_x_position_list"] = [round(r.uniform(0.3, 1.0) * wide, 1) for _ in range(nl)]
+        p["max_y_position_list"] = [round(r.uniform(0.1, 1.0) * wide, 1) for _ in range(nl)]
+        p["max_distance_list"] = [round(r.uniform(0.8, 2.5) * wide, 1) for _ in range(nl)]
+        if r.random() < 0.5:
+            p["min_distance_list"] = [round(r.choice([0.0, r.uniform(0.02, 0.2) * wide]), 1) for _ in range(nl)]
+        kind = "xy"  # objects are placed around the corridor's edges
+    elif kind == "xy":
         p["max_x_position_list"] = [round(r.uniform(0.3, 1.0) * wide, 1) for _ in range(nl)]
         p["max_y_position_list"] = [round(r.uniform(0.3, 1.0) * wide, 1) for _ in range(nl)]
     elif kind == "ring":
